@@ -225,10 +225,15 @@ func VerifC08_PlainTID() { verifC08Dispatch(verifGroupPlain, []int{0, 1, 2, 3, 4
 func VerifC08_PassiveOrVeto() {
 	o := verifSrvOpt{noSecurity: true}
 	hookCalls := 0
-	if verifNondetBool() {
+	switch verifChoice(0, 2) {
+	case 0:
 		o.passive = true
-	} else {
+	case 1:
 		o.onQuery = func(query *krpc.Msg, source net.Addr) bool { hookCalls++; return false }
+	case 2:
+		// passive, with a hook that lets every query through: passive still wins
+		o.passive = true
+		o.onQuery = func(query *krpc.Msg, source net.Addr) bool { hookCalls++; return true }
 	}
 	v := verifStartServer(o)
 	verifFixTokenClock(v.s)
